@@ -190,6 +190,52 @@ def recv_path(n):
             return None
 
 
+class LoopBreak(T.Break):
+    pass
+
+
+class LoopContinue(T.Break):
+    pass
+
+
+MAX_UNROLL = 12
+
+
+def _pat_has_nonzero_int(p):
+    """does the pattern test an integer against something else than the literal 0 (literal != 0, range)?"""
+    if not isinstance(p, dict):
+        return False
+    k = p.get("k")
+    if k == "prange":
+        return True
+    if k == "pexpr":
+        e = p["e"]
+        v = e.get("v") if "t" in e else e.get("value")
+        return isinstance(v, int) and not isinstance(v, bool) and v != 0
+    for key in ("pats", "before", "after"):
+        for x in p.get(key) or []:
+            if _pat_has_nonzero_int(x):
+                return True
+    for f in p.get("fields") or []:
+        if _pat_has_nonzero_int(f.get("pat")):
+            return True
+    for key in ("pat", "sub", "mid"):
+        if isinstance(p.get(key), dict) and _pat_has_nonzero_int(p[key]):
+            return True
+    return False
+
+
+def _has_positive_pos(v):
+    k = v[0]
+    if k == "pos":
+        return True
+    if k == "v":
+        return any(_has_positive_pos(x) for x in v[2])
+    if k in ("t", "iter"):
+        return any(_has_positive_pos(x) for x in v[1])
+    return False
+
+
 class Ev(T.Evaluator):
     def __init__(self, inline=None, cls=None, parse=None, hooks=None, max_inline=8):
         super().__init__(inline=inline or {}, max_inline=max_inline)
@@ -229,13 +275,69 @@ class Ev(T.Evaluator):
             s["pat"] = {"k": "ptuple", "pats": list(s["pat"]["before"]) + list(s["pat"]["after"]), "ddpos": None}
         return super().stmt(s, env)
 
+    # ------------------------------------------------------------------ control flow with one shared environment
+    # (every binding has its own id, so arms / branches need no private copy; assignments to outer locals stay visible)
+    def match(self, n, env):
+        sv = self.ev(n["scrut"], env)
+        if _has_positive_pos(sv) and any(_pat_has_nonzero_int(a["pat"]) for a in n["arms"]):
+            return T.sym("match of a character position against a non-zero constant")
+        for i, a in enumerate(n["arms"]):
+            r = T.match_pat(a["pat"], sv, env)
+            if r is False:
+                continue
+            if r is None:
+                return T.sym("match %s {…}" % show(sv))
+            if "guard" in a:
+                g = self.ev(a["guard"], env)
+                if g == ("b", False):
+                    continue
+                if g != ("b", True):
+                    return T.sym("undecided guard %s" % show(g))
+            return self.ev(a["body"], env)
+        return T.sym("<no arm>")
+
+    def if_(self, n, env):
+        c = H.peel(n["cond"], refs=False)
+        if c.get("k") == "letexpr":
+            v = self.ev(c["init"], env)
+            if _has_positive_pos(v) and _pat_has_nonzero_int(c["pat"]):
+                return T.sym("if-let of a character position against a non-zero constant")
+            r = T.match_pat(c["pat"], v, env)
+            if r is True:
+                return self.ev(n["then"], env)
+            if r is False:
+                return self.ev(n["else"], env) if "else" in n else ("t", [])
+            return T.sym("if let … = %s" % show(v))
+        return super().if_(n, env)
+
+    def _loop(self, n, env):
+        for _ in range(MAX_UNROLL):
+            try:
+                self.ev(n["body"], env)
+            except LoopContinue:
+                continue
+            except LoopBreak:
+                return ("t", [])
+        return T.sym("<loop not finished after %d iterations>" % MAX_UNROLL)
+
     # ------------------------------------------------------------------ expression overrides
     def ev(self, n, env):
         k = n.get("k")
         if k == "closure":
             return ("closure", n, env)            # by reference: captured tables may be mutated
+        if k == "break":
+            raise LoopBreak()
+        if k == "continue":
+            raise LoopContinue()
+        if k == "loop":
+            return self._loop(n, env)
         if k == "assign":
-            self.fx.append(("assign", recv_path(n["l"]), self.ev(n["r"], env)))
+            v = self.ev(n["r"], env)
+            l = H.peel(n["l"], refs=False)
+            if l.get("k") == "path" and l["res"].get("r") == "local":
+                env[l["res"]["id"]] = v            # re-assignment of a local (loop state)
+            else:
+                self.fx.append(("assign", recv_path(n["l"]), v))
             return ("t", [])
         if k == "bin":
             l = self.ev(n["l"], env)
@@ -280,8 +382,11 @@ class Ev(T.Evaluator):
                 T.match_pat(n["pat"], x, env)
                 try:
                     self.ev(n["body"], env)
-                except T.Break:
-                    self.fx.append(("loop-exit", show(x)))
+                except LoopContinue:
+                    self.fx.append(("loop-exit", "continue", show(x)))
+                except LoopBreak:
+                    self.fx.append(("loop-exit", "break", show(x)))
+                    break
             return ("t", [])
         if k == "struct":
             nm = (n.get("adt") or "?").rsplit("::", 1)[-1]
@@ -307,10 +412,7 @@ class Ev(T.Evaluator):
             p, c = (l, r) if l[0] == "pos" else (r, l)
             if l[0] != "pos":
                 op = {"<": ">", ">": "<", "<=": ">=", ">=": "<="}.get(op, op)
-            if p[1] == "zero":
-                tab = {"==": 0 == c[1], "!=": 0 != c[1], "<": 0 < c[1], "<=": 0 <= c[1], ">": 0 > c[1], ">=": 0 >= c[1]}
-                return ("b", tab[op]) if op in tab else T.sym("pos?")
-            # some value >= 1
+            # p is some value >= 1
             if c[1] <= 0 and op in ("==", "!=", ">", ">=", "<", "<="):
                 return ("b", {"==": False, "!=": True, ">": True, ">=": True, "<": False, "<=": False}[op])
             if c[1] == 1 and op in (">=", "<"):
@@ -371,6 +473,21 @@ class Ev(T.Evaluator):
         argn = n["args"] if n.get("k") == "mcall" else n.get("args", [])[1:]     # HIR nodes of the non-receiver arguments
         k0 = a0[0] if a0 else None
 
+        # ---- bool combinators
+        if k0 == "b" and n.get("k") == "mcall":
+            if nm == "then" and len(args) == 2:
+                return T.V("Some", self.apply(args[1], [])) if a0[1] else T.V("None")
+            if nm == "then_some" and len(args) == 2:
+                return T.V("Some", args[1]) if a0[1] else T.V("None")
+            if nm == "not" and len(args) == 1:
+                return ("b", not a0[1])
+        # ---- empty containers
+        if nm in ("new", "default", "with_capacity") and not [a for a in args if a[0] != "i"]:
+            ty = n.get("ty") or ""
+            if re.match(r"^(indexmap|std::collections|alloc::collections)::.*(Map|Set)<", ty):
+                return ("tbl", {})
+            if ty.startswith("alloc::vec::Vec<") or ty.startswith("alloc::collections::vec_deque::VecDeque<"):
+                return ("iter", [])
         # ---- Option / Result combinators on concrete variants
         if k0 == "v" and a0[1] in ("Some", "None", "Ok", "Err"):
             good = a0[1] in ("Some", "Ok")
@@ -484,8 +601,51 @@ class Ev(T.Evaluator):
                         return ("tbl", {key_of(x[1][0]): (x[1][0], x[1][1]) for x in items})
                     return ("tbl", {key_of(x): (x, ("b", True)) for x in items})
                 return a0
-            if nm in ("into_iter", "iter", "cloned", "copied"):
+            if nm in ("into_iter", "iter", "cloned", "copied", "by_ref", "iter_mut", "into_values", "as_slice"):
                 return a0
+            if nm == "rev" and len(args) == 1:
+                return ("iter", list(reversed(items)))
+            if nm in ("any", "all") and len(args) == 2 and args[1][0] == "closure":
+                rs = [self.apply(args[1], [x]) for x in items]
+                if all(r[0] == "b" for r in rs):
+                    return ("b", any(r[1] for r in rs) if nm == "any" else all(r[1] for r in rs))
+                return T.sym("%s(undecided)" % nm)
+            if nm == "find" and len(args) == 2 and args[1][0] == "closure":
+                for x in items:
+                    r = self.apply(args[1], [x])
+                    if r == ("b", True):
+                        return T.V("Some", x)
+                    if r != ("b", False):
+                        return T.sym("find(undecided)")
+                return T.V("None")
+            if nm == "filter_map" and len(args) == 2:
+                out = []
+                for x in items:
+                    r = self.apply(args[1], [x])
+                    if r[0] == "v" and r[1] == "Some":
+                        out.append(r[2][0])
+                    elif not (r[0] == "v" and r[1] == "None"):
+                        return T.sym("filter_map(%s)" % show(r))
+                return ("iter", out)
+            if nm == "for_each" and len(args) == 2:
+                for x in items:
+                    self.apply(args[1], [x])
+                return ("t", [])
+            if nm in ("count", "len") and len(args) == 1:
+                return ("i", len(items))
+            if nm == "is_empty" and len(args) == 1:
+                return ("b", not items)
+            if nm in ("next", "pop_front") and len(args) == 1:
+                loc = H.local_of(n["recv"]) if n.get("k") == "mcall" else None
+                if loc is None and items:
+                    return T.sym("next() on an iterator that is not a local")
+                if not items:
+                    return T.V("None")
+                env[loc[0]] = ("iter", items[1:])
+                return T.V("Some", items[0])
+            if nm in ("push", "push_back") and len(args) == 2 and n.get("k") == "mcall" and H.local_of(n["recv"]):
+                env[H.local_of(n["recv"])[0]] = ("iter", items + [args[1]])
+                return ("t", [])
             if nm == "try_into":
                 m = re.search(r"\[[^\[\]]*; (\d+)\]", n.get("ty") or "")
                 if m:
@@ -545,7 +705,7 @@ class Ev(T.Evaluator):
             cl = self.cls.get(a0[1])
             if cl in ("digits", "empty"):
                 return T.V("None")
-            return T.V("Some", ("t", [("pos", "zero" if cl == "plain" else "positive", a0[1]), T.sym("<char>")]))
+            return T.V("Some", ("t", [("i", 0) if cl == "plain" else ("pos", "positive", a0[1]), T.sym("<char>")]))
         if nm in ("context", "with_context") and k0 == "v" and len(args) == 2:
             return a0                              # opaque fallible term: the context only decorates the error
         if nm in ("push", "push_back") and len(args) == 2 and n.get("k") == "mcall":
